@@ -120,7 +120,7 @@ func runC07(c *Ctx) {
 		}, false)
 		c.obI("R07.4", ci, "parameter-skip-stops-at-comma", guardedBy(ci, nil, notComma) && guardedBy(ci, ci, notComma), "while skipping a range's parameters in search of q=, ParseAccept advances only when the rest does not start with the ',' that separates the next range (so the following ranges of the header line are parsed from the right place)", "the skip loop can run over a ',' and swallow the following ranges")
 	}
-	c.obF("R07.4", pa, "parameter-skip-loop", nSkip >= 1, "ParseAccept skips media-type parameters before q=", fmt.Sprintf("%d skip sites", nSkip))
+	c.obRF("R07.4", pa, "parameter-skip-loop", nSkip >= 1, "ParseAccept skips media-type parameters before q=", fmt.Sprintf("%d skip sites", nSkip))
 
 	// every line of the header is parsed: the loop over the header's values is left only when they are exhausted
 	{
@@ -130,7 +130,7 @@ func runC07(c *Ctx) {
 				lines = append(lines, l)
 			}
 		}
-		c.obF("R07.4", pa, "iterates-header-lines", len(lines) == 1, "ParseAccept iterates over the values of the header", fmt.Sprintf("%d loops", len(lines)))
+		c.obRF("R07.4", pa, "iterates-header-lines", len(lines) == 1, "ParseAccept iterates over the values of the header", fmt.Sprintf("%d loops", len(lines)))
 		for _, l := range lines {
 			c.obI("R07.4", l.Elem, "all-header-lines-parsed", l.noEarlyExit(), "an empty or malformed element ends the parse of its own header line only: the loop over the header's lines is never left before the last line (a later line can carry the preferred range)", "a path leaves the loop over the header lines early (break/return from the body)")
 		}
@@ -165,7 +165,7 @@ func runC07(c *Ctx) {
 		}
 		c.obI("R07.4", bo, "multiplication-bounded", bounded, "an integer accumulator of the q-value parser is multiplied only after an accumulator was found below a constant bound (the number of digits taken into account is bounded, so n and d cannot overflow)", "the accumulator is multiplied once per input digit without bound: 19+ digits overflow int")
 	}
-	c.obF("R07.4", eq, "accumulators", nMul >= 2, "expectQuality accumulates numerator and denominator", fmt.Sprintf("%d multiplications", nMul))
+	c.obRF("R07.4", eq, "accumulators", nMul >= 2, "expectQuality accumulates numerator and denominator", fmt.Sprintf("%d multiplications", nMul))
 	// digit loop exits
 	for _, in := range instrs(eq) {
 		phi, ok := in.(*ssa.Phi)
@@ -179,7 +179,7 @@ func runC07(c *Ctx) {
 	// R07.5 406
 	rf := p.Fn("(*rt/middleware.validation).responseFormat")
 	negs := callsIn(rf, "(*rt/middleware.Context).ResponseFormat")
-	c.obF("R07.5", rf, "negotiates", len(negs) == 1, "validation.responseFormat negotiates the response format", "")
+	c.obRF("R07.5", rf, "negotiates", len(negs) == 1, "validation.responseFormat negotiates the response format", "")
 	if len(negs) == 1 {
 		n := negs[0].(*ssa.Call)
 		str := resultOf(n, 0)
@@ -204,7 +204,7 @@ func runC07(c *Ctx) {
 	if len(rfc) == 1 && len(prm) == 1 {
 		c.obI("R07.5", prm[0], "bind-needs-acceptable-format", guardedBy(prm[0], rfc[0], resultEmpty), "binding (and later the handler) runs only when the 406 gate recorded nothing", "")
 	} else {
-		c.obF("R07.5", vr, "stages", false, "validateRequest runs the response-format gate before binding", "")
+		c.obRF("R07.5", vr, "stages", false, "validateRequest runs the response-format gate before binding", "")
 	}
 	bv := p.Fn("(*rt/middleware.Context).BindAndValidate")
 	for _, r := range returnsOf(bv) {
@@ -295,10 +295,10 @@ func loopExitsOnlyOnNonDigit(c *Ctx, f *ssa.Function) {
 				c.obI("R07.4", term, "digit-loop-exit", ok, "the loop over the fractional digits of a q-value is left only at the end of input or at a byte that is not a digit (every digit is consumed, so the remainder of the header line is parsed from the right place)", "the loop can be left while digits remain: the rest of the Accept line would be mis-parsed or dropped")
 			}
 		}
-		c.obF("R07.4", f, "digit-loop", n >= 2, "expectQuality scans the fractional digits in a loop", "")
+		c.obRF("R07.4", f, "digit-loop", n >= 2, "expectQuality scans the fractional digits in a loop", "")
 		return
 	}
-	c.obF("R07.4", f, "digit-loop", false, "expectQuality scans the fractional digits in a loop", "loop not found")
+	c.obRF("R07.4", f, "digit-loop", false, "expectQuality scans the fractional digits in a loop", "loop not found")
 }
 
 // factQNotBelow: the edge establishes that the range's q is not below the other operand (the best q so far).
@@ -344,7 +344,7 @@ func negotiateSelection(c *Ctx, r1, r2 string) {
 		c.obI(r1, r, "result-is-an-offer", ok, "NegotiateContentType returns its defaultOffer or an element of offers — never a value taken from the Accept header", "origin "+describeOrigin(bad))
 	}
 	specs := callsIn(f, "rt/middleware/header.ParseAccept")
-	c.obF(r1, f, "parses-accept", len(specs) == 1, "the Accept header is parsed once", "")
+	c.obRF(r1, f, "parses-accept", len(specs) == 1, "the Accept header is parsed once", "")
 	if len(specs) != 1 {
 		return
 	}
@@ -352,7 +352,7 @@ func negotiateSelection(c *Ctx, r1, r2 string) {
 	noSpecs := factLenPositive(vIs(sp), false)
 	inner := sliceLoops(f, vIs(sp))
 	outer := sliceLoops(f, vIs(offers))
-	c.obF(r2, f, "loops", len(inner) == 1 && len(outer) == 1, "NegotiateContentType iterates offers x ranges", fmt.Sprintf("%d/%d loops", len(outer), len(inner)))
+	c.obRF(r2, f, "loops", len(inner) == 1 && len(outer) == 1, "NegotiateContentType iterates offers x ranges", fmt.Sprintf("%d/%d loops", len(outer), len(inner)))
 	if len(inner) != 1 || len(outer) != 1 {
 		return
 	}
@@ -465,8 +465,8 @@ func negotiateSelection(c *Ctx, r1, r2 string) {
 	} else {
 		c.info("%s: specificity ranks are computed values (helper results): their order is not decided", r2)
 	}
-	c.obF(r2, f, "rank-comparisons", nRank >= 1, "every selection compares the best specificity rank with its own", fmt.Sprintf("%d rank comparisons", nRank))
-	c.obF(r2, f, "selections", nSel >= 1, "a matching range can select an offer", fmt.Sprintf("%d selection sites", nSel))
+	c.obRF(r2, f, "rank-comparisons", nRank >= 1, "every selection compares the best specificity rank with its own", fmt.Sprintf("%d rank comparisons", nRank))
+	c.obRF(r2, f, "selections", nSel >= 1, "a matching range can select an offer", fmt.Sprintf("%d selection sites", nSel))
 	for _, r := range returnsOf(f) {
 		if _, isPhi := r.Results[0].(*ssa.Phi); isPhi {
 			continue
@@ -532,7 +532,7 @@ func negotiateMatchers(c *Ctx, rule string) {
 		c.obI(rule, ci, "subtype-wildcard-prefix-keeps-slash", okO && okP && guardedBy(ci, nil, isWild),
 			"a type/* range matches an offer only by the prefix 'type/' (the range without its final '*'), compared with the normalised offer", "the prefix compared is not spec.Value minus its last byte: "+describe(a[1]))
 	}
-	c.obF(rule, f, "has-subtype-wildcard", nPrefix == 1, "NegotiateContentType knows type/* ranges", "")
+	c.obRF(rule, f, "has-subtype-wildcard", nPrefix == 1, "NegotiateContentType knows type/* ranges", "")
 	nExact := 0
 	for _, in := range instrs(f) {
 		bo, ok := in.(*ssa.BinOp)
@@ -551,6 +551,6 @@ func negotiateMatchers(c *Ctx, rule string) {
 			}
 		}
 	}
-	c.obF(rule, f, "knows-any-range", nStar == 1, "NegotiateContentType knows the */* range", fmt.Sprintf("%d comparisons", nStar))
-	c.obF(rule, f, "exact-range-compares-normalised-offer", nExact == 1, "an exact range matches by equality with the normalised offer", fmt.Sprintf("%d comparisons", nExact))
+	c.obRF(rule, f, "knows-any-range", nStar == 1, "NegotiateContentType knows the */* range", fmt.Sprintf("%d comparisons", nStar))
+	c.obRF(rule, f, "exact-range-compares-normalised-offer", nExact == 1, "an exact range matches by equality with the normalised offer", fmt.Sprintf("%d comparisons", nExact))
 }
